@@ -30,22 +30,25 @@ theorem ext_sign_correct {G : Type} [AddCommGroup G] (B : G) (L : ℕ) (Hs : Byt
 /-! ## required key hashes -/
 
 /-- membership characterisation of `_build_required_vkeys`: exactly the payment key hashes of inputs and
-collateral, the required signers, the pubkey leaves of `self.native_scripts` at any depth (n-of-k included), the
-key credentials of the certificate kinds the code handles (pool operator / retiring pool unconditionally), the key
-reward accounts withdrawn from, and the key voters -/
+collateral, the required signers, the pubkey leaves — at any depth, n-of-k included — of every native script the
+builder holds (`native_scripts`, scripts bound to inputs incl. reference scripts, minting / withdrawal /
+certificate scripts), the key credential of every certificate (pool operator / retiring pool unconditionally) and
+the owners of pool registrations, the key reward accounts withdrawn from, and the key voters -/
 theorem required_vkeys_spec (st : State) (h : Bytes) :
     h ∈ requiredVkeys st ↔
       ((⟨true, h⟩ : Cred) ∈ st.inputs ∨ (⟨true, h⟩ : Cred) ∈ st.collaterals
       ∨ h ∈ st.requiredSigners
-      ∨ (∃ s, s ∈ st.nativeScripts ∧ HasKey h s)
-      ∨ (∃ c, c ∈ st.certificates ∧ c.kind.handled = true ∧ h = c.cred.hash ∧
-            (c.cred.isKey = true ∨ c.kind = .poolReg ∨ c.kind = .poolRetire))
+      ∨ (∃ s, (s ∈ st.nativeScripts ∨ s ∈ st.inputScripts ∨ s ∈ st.mintScripts ∨ s ∈ st.withdrawalScripts
+              ∨ s ∈ st.certScripts) ∧ HasKey h s)
+      ∨ (∃ c, c ∈ st.certificates ∧
+            ((h = c.cred.hash ∧ (c.cred.isKey = true ∨ c.kind = .poolReg ∨ c.kind = .poolRetire))
+              ∨ (c.kind = .poolReg ∧ h ∈ c.owners)))
       ∨ (∃ hd, hd :: h ∈ st.withdrawals ∧ hd.toNat / 16 = 14)
       ∨ (⟨true, h⟩ : Cred) ∈ st.voters) := by
   unfold requiredVkeys
   rw [mem_dedup]
   simp only [List.mem_append, inputVkeys, nativeVkeys, certificateVkeys, withdrawalVkeys, voteVkeys, mem_keyCreds,
-    mem_keysList_iff, List.mem_flatMap, mem_certVkeys, mem_rewardKeyHash]
+    mem_keysList_iff, List.mem_flatMap, mem_certVkeys, mem_rewardKeyHash, mem_allNativeScripts]
   constructor
   · rintro (((((h1 | h1) | h1) | h1) | h1) | h1)
     · exact h1.elim Or.inl (fun x => Or.inr (Or.inl x))
@@ -68,11 +71,13 @@ theorem required_vkeys_spec (st : State) (h : Bytes) :
 /-- the required key hashes are a set: no duplicates, whatever overlaps the sources have -/
 theorem required_nodup (st : State) : (requiredVkeys st).Nodup := nodup_dedup _
 
-/-- every `ScriptPubkey` leaf of a supplied native script, at any nesting depth and below any combinator
-(`all`, `any`, n-of-k), is a required key hash (induction over the script tree) -/
-theorem native_keys_complete (st : State) (s : NScript) (hs : s ∈ st.nativeScripts) (h : Bytes)
+/-- every `ScriptPubkey` leaf of a native script the builder holds — in `native_scripts` or attached to an input,
+a mint, a withdrawal or a certificate — at any nesting depth and below any combinator (`all`, `any`, n-of-k), is a
+required key hash (induction over the script tree) -/
+theorem native_keys_complete (st : State) (s : NScript) (hs : s ∈ allNativeScripts st) (h : Bytes)
     (hk : HasKey h s) : h ∈ requiredVkeys st :=
-  (required_vkeys_spec st h).2 (Or.inr (Or.inr (Or.inr (Or.inl ⟨s, hs, hk⟩))))
+  (required_vkeys_spec st h).2
+    (Or.inr (Or.inr (Or.inr (Or.inl ⟨s, (mem_allNativeScripts s st).1 hs, hk⟩))))
 
 /-- … and nothing else is collected from a script -/
 theorem native_keys_exact (s : NScript) (h : Bytes) : h ∈ s.keys ↔ HasKey h s := mem_keys_iff h s
@@ -87,28 +92,46 @@ theorem native_keys_pinned_counterexample : ¬ native_keys_pinned_goal := by
   have := h (.nofk 1 [.pubkey [1], .pubkey [2]]) [1] (.nofk (s := .pubkey [1]) (by simp) .pubkey)
   simp [NScript.keysPinned] at this
 
-/-- GOAL (property text, "certificate … credentials"): the key credential of every certificate and every pool
-owner is a required key hash -/
-def cert_coverage_goal : Prop :=
-  ∀ (st : State) (c : Cert), c ∈ st.certificates → ∀ h, h ∈ certVkeysFull c → h ∈ requiredVkeys st
+/-- GOAL as the pinned tree collected native-script keys: from `self.native_scripts` only -/
+def attached_native_pinned_goal : Prop :=
+  ∀ (st : State) (s : NScript), s ∈ allNativeScripts st → ∀ h, HasKey h s → h ∈ nativeVkeysPinned st
 
-/-- proved part: the key credential of every certificate of a *handled* kind (10 stake kinds, DRep registration,
-pool registration operator, pool retirement) is a required key hash -/
-theorem cert_coverage_partial (st : State) (c : Cert) (hc : c ∈ st.certificates) (hk : c.kind.handled = true)
-    (hkey : c.cred.isKey = true) : c.cred.hash ∈ requiredVkeys st :=
-  (required_vkeys_spec st _).2 (Or.inr (Or.inr (Or.inr (Or.inr (Or.inl ⟨c, hc, hk, rfl, Or.inl hkey⟩)))))
-
-/-- the full-strength goal is false of the code: DRep deregistration / update, committee hot-key authorisation
-and cold-key resignation, and pool owners other than the operator are not collected -/
-theorem cert_coverage_counterexample : ¬ cert_coverage_goal := by
+/-- the pinned collection loses the keys of a native script attached to an input (repaired in /repo by `fix:`
+commit 31135c8; `nativeVkeys` models the repaired code) -/
+theorem attached_native_pinned_counterexample : ¬ attached_native_pinned_goal := by
   intro h
-  have := h ⟨[], [], [], [], [⟨.unregDRep, ⟨true, [7]⟩, []⟩], [], [], none⟩ ⟨.unregDRep, ⟨true, [7]⟩, []⟩
-    (by simp) [7] (by simp [certVkeysFull])
-  revert this; decide
+  have := h ⟨[], [], [], [], [.pubkey [1]], [], [], [], [], [], [], none⟩ (.pubkey [1])
+    (by simp [allNativeScripts]) [1] .pubkey
+  simp [nativeVkeysPinned, NScript.keysList] at this
 
-theorem cert_unhandled_kinds (k : CertKind) :
-    k.handled = false ↔ (k = .authHot ∨ k = .resignCold ∨ k = .unregDRep ∨ k = .updateDRep) := by
-  cases k <;> simp [CertKind.handled, CertKind.isStakeKind]
+/-- property text, "certificate … credentials", at full strength: the key credential of every certificate — all
+17 kinds of pycardano/certificate.py — and every owner of a pool registration is a required key hash -/
+theorem cert_coverage (st : State) (c : Cert) (hc : c ∈ st.certificates) (h : Bytes) (hm : h ∈ certVkeysFull c) :
+    h ∈ requiredVkeys st := by
+  have := (mem_certVkeys h c).1 (certVkeysFull_subset h c hm)
+  exact (required_vkeys_spec st h).2 (Or.inr (Or.inr (Or.inr (Or.inr (Or.inl ⟨c, hc, this⟩)))))
+
+/-- … and a certificate contributes nothing beyond that, except that the operator of a pool registration and the
+hash of a retiring pool are taken as they are (they are key hashes by type) -/
+theorem cert_exact (c : Cert) (h : Bytes) (hm : h ∈ certVkeys c) :
+    h ∈ certVkeysFull c ∨ (h = c.cred.hash ∧ (c.kind = .poolReg ∨ c.kind = .poolRetire)) := by
+  rcases (mem_certVkeys h c).1 hm with ⟨he, hk | hk | hk⟩ | ⟨hp, ho⟩
+  · left; simp [certVkeysFull, credKey, hk, he]
+  · exact Or.inr ⟨he, Or.inl hk⟩
+  · exact Or.inr ⟨he, Or.inr hk⟩
+  · left; simp [certVkeysFull, hp, ho]
+
+/-- GOAL as the pinned tree collected certificate credentials -/
+def cert_coverage_pinned_goal : Prop :=
+  ∀ (c : Cert) (h : Bytes), h ∈ certVkeysFull c → h ∈ certVkeysPinned c
+
+/-- the pinned loop misses DRep deregistration (also: DRep update, committee hot-key authorisation and cold-key
+resignation, pool owners other than the operator) — repaired in /repo by `fix:` commit e281a78; `certVkeys`
+models the repaired code -/
+theorem cert_coverage_pinned_counterexample : ¬ cert_coverage_pinned_goal := by
+  intro h
+  have := h ⟨.unregDRep, ⟨true, [7]⟩, []⟩ [7] (by simp [certVkeysFull, credKey])
+  revert this; decide
 
 /-! ## the signing loop -/
 
@@ -282,19 +305,19 @@ private theorem not_nodup_map_range {α} (f : Nat → α) (n i j : Nat) (hij : i
 witnesses survive the `NonEmptyOrderedSet` (index 256 repeats index 0) -/
 theorem placeholder_count_counterexample : ¬ placeholder_count_goal := by
   intro h
-  have hreq : (requiredVkeys ⟨[], [], (List.range 257).map (beBytes 28), [], [], [], [], none⟩).length = 257 := by
-    have : requiredVkeys ⟨[], [], (List.range 257).map (beBytes 28), [], [], [], [], none⟩
+  have hreq : (requiredVkeys ⟨[], [], (List.range 257).map (beBytes 28), [], [], [], [], [], [], [], [], none⟩).length = 257 := by
+    have : requiredVkeys ⟨[], [], (List.range 257).map (beBytes 28), [], [], [], [], [], [], [], [], none⟩
         = dedup ((List.range 257).map (beBytes 28)) := by
-      simp [requiredVkeys, inputVkeys, nativeVkeys, certificateVkeys, withdrawalVkeys, voteVkeys, keyCreds,
-        NScript.keysList]
+      simp [requiredVkeys, inputVkeys, nativeVkeys, allNativeScripts, certificateVkeys, withdrawalVkeys, voteVkeys,
+        keyCreds, NScript.keysList]
     rw [this, dedup_of_nodup]
     · simp
     · apply nodup_map_range
       intro i j hi hj he
       rw [← be28_inj i hi, ← be28_inj j hj, he]
-  have hg := h ⟨[], [], (List.range 257).map (beBytes 28), [], [], [], [], none⟩ rfl
+  have hg := h ⟨[], [], (List.range 257).map (beBytes 28), [], [], [], [], [], [], [], [], none⟩ rfl
   rw [hreq] at hg
-  have hc : witnessCount ⟨[], [], (List.range 257).map (beBytes 28), [], [], [], [], none⟩ = 257 := by
+  have hc : witnessCount ⟨[], [], (List.range 257).map (beBytes 28), [], [], [], [], [], [], [], [], none⟩ = 257 := by
     simp only [witnessCount]; exact hreq
   unfold fakeWitnesses at hg
   rw [hc] at hg
@@ -311,15 +334,17 @@ non-trivially): `ZMod 13`, `B = 1`, `L = 13` -/
 example : (13 : ℕ) • (1 : ZMod 13) = 0 := by decide
 
 /-- a state drawing required key hashes from every source (input, collateral, required signer, n-of-k script nested
-in `all`, certificate, key withdrawal, voter) with overlaps; script credentials and the unhandled certificate kind
-contribute nothing -/
+in `all`, scripts attached to an input / a mint / a withdrawal / a certificate, certificates incl. DRep
+deregistration, committee resignation and a pool registration with a second owner, key withdrawal, voter) with
+overlaps; script credentials contribute nothing -/
 example :
     requiredVkeys ⟨[⟨true, [1]⟩, ⟨false, [9]⟩], [⟨true, [2]⟩, ⟨true, [1]⟩], [[3], [1]],
       [.all [.nofk 1 [.pubkey [4], .any [.pubkey [5], .before 7]], .pubkey [3]]],
+      [.nofk 2 [.pubkey [16], .pubkey [4]]], [.pubkey [17]], [.any [.pubkey [18]]], [.all [.pubkey [19], .after 3]],
       [⟨.stakeDeleg, ⟨true, [6]⟩, []⟩, ⟨.stakeDereg, ⟨false, [10]⟩, []⟩, ⟨.unregDRep, ⟨true, [11]⟩, []⟩,
-       ⟨.poolReg, ⟨true, [12]⟩, [[13]]⟩],
+       ⟨.resignCold, ⟨true, [20]⟩, []⟩, ⟨.authHot, ⟨false, [21]⟩, []⟩, ⟨.poolReg, ⟨true, [12]⟩, [[12], [13]]⟩],
       [[0xe0, 7], [0xf0, 14]], [⟨true, [8]⟩, ⟨false, [15]⟩], none⟩
-      = [[2], [1], [4], [5], [3], [6], [12], [7], [8]] := by decide
+      = [[2], [1], [5], [3], [16], [4], [17], [18], [19], [6], [11], [20], [12], [13], [7], [8]] := by decide
 
 /-- the signing loop on a mixed key set: ordinary key required, extended key required (64-byte verification key
 trimmed to its first 32 bytes), the ordinary key supplied twice, and an unrelated key; not forced -/
@@ -337,9 +362,10 @@ end Pyc.C10
 #print axioms Pyc.C10.native_keys_complete
 #print axioms Pyc.C10.native_keys_exact
 #print axioms Pyc.C10.native_keys_pinned_counterexample
-#print axioms Pyc.C10.cert_coverage_partial
-#print axioms Pyc.C10.cert_coverage_counterexample
-#print axioms Pyc.C10.cert_unhandled_kinds
+#print axioms Pyc.C10.attached_native_pinned_counterexample
+#print axioms Pyc.C10.cert_coverage
+#print axioms Pyc.C10.cert_exact
+#print axioms Pyc.C10.cert_coverage_pinned_counterexample
 #print axioms Pyc.C10.witnesses_cover
 #print axioms Pyc.C10.witnesses_minimal
 #print axioms Pyc.C10.witnesses_forced
